@@ -35,7 +35,9 @@ DwVals == {-32769, -32768, -2, 0, 258, 32767, 32768, 65535, 65536, 100000}
 DlVals == {-2147483647, -1, 0, 1, 16909060, 2147483647}
 
 StrSet == {<<65>>, <<72, 105>>, <<>>, <<97, 10, 9, 13>>, <<34, 92, 39>>, <<120, 0, 121>>,
-           <<92, 48>>, <<32, 59, 44, 32>>, <<48, 49, 50, 51, 52, 53, 54, 55, 56, 57, 97, 98, 99, 100, 101, 102, 103>>}
+           <<92, 48>>, <<32, 59, 44, 32>>, <<48, 49, 50, 51, 52, 53, 54, 55, 56, 57, 97, 98, 99, 100, 101, 102, 103>>,
+           \* strings whose text is also a token of the language: $  //x  /*  ;x  :  ,  #  .
+           <<36>>, <<47, 47, 120>>, <<47, 42>>, <<59, 120>>, <<58>>, <<44>>, <<35>>, <<46>>, <<36, 36>>}
 
 Stmts ==
      {[k |-> "org", a |-> a] : a \in {0, 1, 2, 16, 255, 4096, 32768, 65520, 65534, 65535, 65536, 65537, 1048575}}
